@@ -13,8 +13,10 @@ Rec == ndJsonDeserialize(IOEnv.TRACE)
 N == Len(Rec)
 
 VARIABLES l,   \* next line of the trace
-          rk   \* search hint: entry |-> position in the hand-off sequence (0 = never), see SilentLin
-tvars == <<avars, l, rk>>
+          rk,  \* search hint: entry |-> position in the hand-off sequence (0 = never), see SilentLin
+          sub  \* 1 = a tracing subscriber is installed in the recorded process (then the queue must not
+               \* write its in-band error report: C01 allows it only when none is installed)
+tvars == <<avars, l, rk, sub>>
 
 Ev(name) == l <= N /\ Rec[l].ev = name
 Adv == l' = l + 1
@@ -22,7 +24,7 @@ Adv == l' = l + 1
 TInit ==
     /\ l = 1
     /\ AInit(1, 1)
-    /\ rk = <<>>
+    /\ rk = <<>> /\ sub = 0
     /\ TLCSet(1, 1)
 
 TReset ==
@@ -31,23 +33,23 @@ TReset ==
     /\ nexted' = <<>> /\ lastRes' = "none" /\ lost' = {} /\ flushed' = {} /\ unflushed' = 0
     /\ closed' = FALSE /\ before' = <<>> /\ fdone' = {} /\ hs' = "held" /\ snap' = {}
     /\ sinks' = Rec[l].sinks
-    /\ rk' = <<>>
+    /\ rk' = <<>> /\ sub' = Rec[l].sub
 
-TAppStart == Ev("AppStart") /\ Adv /\ AppStart(Rec[l].p, Rec[l].e) /\ rk' = (Rec[l].e :> Rec[l].r) @@ rk
-TAppEnd   == Ev("AppEnd") /\ Adv /\ AppEnd(Rec[l].p, Rec[l].e) /\ UNCHANGED rk
-TNext     == Ev("Next") /\ Adv /\ Next(Rec[l].e, Rec[l].res) /\ UNCHANGED rk
-TReport   == Ev("Report") /\ Adv /\ Report /\ UNCHANGED rk
-TFlush    == Ev("Flush") /\ Adv /\ Flush /\ UNCHANGED rk
-TClose    == Ev("Close") /\ Adv /\ Close /\ UNCHANGED rk
-TFlushReq == Ev("FlushReq") /\ Adv /\ FlushReq(Rec[l].f) /\ UNCHANGED rk
-TFlushDone == Ev("FlushDone") /\ Adv /\ FlushDone(Rec[l].f) /\ UNCHANGED rk
-TDropStart == Ev("DropStart") /\ Adv /\ DropStart /\ UNCHANGED rk
-TDropEnd  == Ev("DropEnd") /\ Adv /\ DropEnd /\ UNCHANGED rk
-TForget   == Ev("Forget") /\ Adv /\ Forget /\ UNCHANGED rk
-TSinkClone == Ev("SinkClone") /\ Adv /\ SinkClone /\ UNCHANGED rk
-TSinkDrop == Ev("SinkDrop") /\ Adv /\ SinkDrop /\ UNCHANGED rk
-TQuiesce  == Ev("Quiesce") /\ Adv /\ Quiesced /\ UNCHANGED <<avars, rk>>
-TOverflows == Ev("Overflows") /\ Adv /\ OverflowCount(Rec[l].n) /\ UNCHANGED <<avars, rk>>
+TAppStart == Ev("AppStart") /\ Adv /\ AppStart(Rec[l].p, Rec[l].e) /\ rk' = (Rec[l].e :> Rec[l].r) @@ rk /\ UNCHANGED sub
+TAppEnd   == Ev("AppEnd") /\ Adv /\ AppEnd(Rec[l].p, Rec[l].e) /\ UNCHANGED <<rk, sub>>
+TNext     == Ev("Next") /\ Adv /\ Next(Rec[l].e, Rec[l].res) /\ UNCHANGED <<rk, sub>>
+TReport   == Ev("Report") /\ Adv /\ sub = 0 /\ Report /\ UNCHANGED <<rk, sub>>
+TFlush    == Ev("Flush") /\ Adv /\ Flush /\ UNCHANGED <<rk, sub>>
+TClose    == Ev("Close") /\ Adv /\ Close /\ UNCHANGED <<rk, sub>>
+TFlushReq == Ev("FlushReq") /\ Adv /\ FlushReq(Rec[l].f) /\ UNCHANGED <<rk, sub>>
+TFlushDone == Ev("FlushDone") /\ Adv /\ FlushDone(Rec[l].f) /\ UNCHANGED <<rk, sub>>
+TDropStart == Ev("DropStart") /\ Adv /\ DropStart /\ UNCHANGED <<rk, sub>>
+TDropEnd  == Ev("DropEnd") /\ Adv /\ DropEnd /\ UNCHANGED <<rk, sub>>
+TForget   == Ev("Forget") /\ Adv /\ Forget /\ UNCHANGED <<rk, sub>>
+TSinkClone == Ev("SinkClone") /\ Adv /\ SinkClone /\ UNCHANGED <<rk, sub>>
+TSinkDrop == Ev("SinkDrop") /\ Adv /\ SinkDrop /\ UNCHANGED <<rk, sub>>
+TQuiesce  == Ev("Quiesce") /\ Adv /\ Quiesced /\ UNCHANGED <<avars, rk, sub>>
+TOverflows == Ev("Overflows") /\ Adv /\ OverflowCount(Rec[l].n) /\ UNCHANGED <<avars, rk, sub>>
 \* events the harness logs when something that must happen did not (append took longer
 \* than its budget, a flush never completed, the stream was never closed, a panic):
 \* no action consumes them, so the trace is rejected there.
@@ -60,10 +62,10 @@ InOrder(e) == \A pe2 \in pending : rk[e] = 0 \/ rk[pe2[2]] = 0 \/ rk[e] <= rk[pe
 \* the entry it hands over next.
 SilentLin == /\ l <= N /\ \E pe \in pending : InOrder(pe[2]) /\ Lin(pe[1], pe[2])
              /\ (Len(q) >= cap => rk[Head(q)] = 0)
-             /\ UNCHANGED <<l, rk>>
+             /\ UNCHANGED <<l, rk, sub>>
 SilentPop == /\ l <= N /\ Pop
              /\ rk[Head(q)] = Len(nexted) + 1
-             /\ UNCHANGED <<l, rk>>
+             /\ UNCHANGED <<l, rk, sub>>
 
 TNext_ ==
     \/ TReset \/ TAppStart \/ TAppEnd \/ TNext \/ TReport \/ TFlush \/ TClose
